@@ -19,7 +19,8 @@ Record policy := mkpol {
 
 Inductive ocmd :=
 | OInit (id : bytes) | OChoke | OInt | OUnchoke | ONotInt | OHave (i : N) | OBitfield (b : bytes)
-| ORequest (i : N) | ODone | OCancel | OKill (normal : bool).
+| ORequest (i : N) | ODone | OCancel | OKill (normal : bool)
+| ODoneEarly.      (* a PieceDone that reached the manager side while no newly written verified piece file existed *)
 
 Record obs := mkobs {
   ob_sent : bytes;
@@ -200,7 +201,7 @@ Definition assign_change (p : policy) (c : ocmd) : option (option (N * N)) :=
   match c with
   | OUnchoke => of_reply (po_unch p)
   | OHave _ => match po_have p with RHave_IntReq i l => Some (Some (i, l)) | _ => None end
-  | ODone => of_reply (po_done p)
+  | ODone | ODoneEarly => of_reply (po_done p)
   | OCancel => of_reply (po_cancel p)
   | _ => None
   end.
@@ -422,6 +423,8 @@ Definition step01 (c : hcase) (t : unit) (s : stim) (p : policy) (o : obs) : opt
   let files_ok := forallb (fun f => let '(name, l, h) := f in
                                     bytes_eqb name h && existsb (bytes_eqb name) (c_hashes (hc_conf c))) (ob_files o) in
   let has_done := existsb (fun x => match x with ODone => true | _ => false end) (ob_cmds o) in
+  let early := existsb (fun x => match x with ODoneEarly => true | _ => false end) (ob_cmds o) in
+  if early then None else        (* reported done before the verified data was stored *)
   if files_ok && (negb has_done || (match ob_files o with [] => false | _ => true end)) then Some tt else None.
 Fixpoint o01_run (c : hcase) (steps : list (stim * policy * obs)) : bool :=
   match steps with
